@@ -115,6 +115,20 @@ class _GuardOps:
         return "NEW"
 
 
+class _ReplaceOps(_GuardOps):
+    """_largest: keys of new items are NEW, the heap root's key is OLD; any call applied to
+    the new item / its key (key function, order wrapper) yields the new item's key."""
+
+    def call(self, func, args, kwargs, node, env):
+        if any(a in ("NEW", ("key", "NEW")) for a in args):
+            return ("key", "NEW")
+        return UNKNOWN
+
+    def visit(self, node, env, ev):
+        if node.kind == "call" and norm(node.ast.func).endswith("heapreplace"):
+            env["@replaced"] = True
+
+
 def r02_1(ctx) -> None:
     u = ctx.unit("builtins._min_max")
     cfg = cfg_of(u)
@@ -159,7 +173,9 @@ def r02_1(ctx) -> None:
                     env.update(keyed)
                     env.update(callables)
                 start = [s for (lab, s) in loop.succ if lab == "n"]
-                results = Machine(cfg, _GuardOps(outcome)).run(env, start=loop, stop=lambda n, loop=loop: n is loop)
+                ops = _GuardOps(outcome)
+                results = Machine(cfg, ops, resolver=make_resolver(ctx, u, ops)).run(
+                    env, start=loop, stop=lambda n, loop=loop: n is loop)
                 want_replace = (outcome == "GT") if inv else (outcome == "LT")
                 mode = "max" if inv else "min"
                 cell = f"{which} loop, {mode}, new item {outcome} incumbent"
@@ -393,23 +409,32 @@ def r02_4(ctx) -> None:
             ok = ("self.key < other.key" in text and "other.key < self.key" in text and "not" in text) or \
                 "self.key == other.key" in text
             ctx.check(ok, "R02.4", eq, "__eq__", "equality of wrappers is equality of the wrapped keys (derived from < or ==)")
-    # strict replacement test: `<root key> < <new key>` (or the mirrored `>`), nothing weaker
-    tests = [n for n in own_nodes(node) if isinstance(n, ast.If) and any(
-        isinstance(c, ast.Call) and norm(c.func).endswith("heapreplace") for b in n.body for c in ast.walk(b))]
+    # strict replacement: the loop body is abstractly evaluated for the new item's key being
+    # LT / EQ / GT the heap root's key; the root is replaced exactly when root < new
+    cfg = cfg_of(u)
     root_names = set()
     for s_ in own_nodes(node):
         if isinstance(s_, ast.Assign) and isinstance(s_.value, ast.Subscript) and isinstance(s_.value.value, ast.Subscript) \
                 and norm(s_.value.slice) == "0" and norm(s_.value.value.slice) == "0":
             root_names |= {t.id for t in s_.targets if isinstance(t, ast.Name)}
-    ok = len(tests) == 1 and isinstance(tests[0].test, ast.Compare) and len(tests[0].test.ops) == 1
-    if ok:
-        c = tests[0].test
-        left, right = norm(c.left), norm(c.comparators[0])
-        ok = (isinstance(c.ops[0], ast.Lt) and left in root_names and right not in root_names) or \
-             (isinstance(c.ops[0], ast.Gt) and right in root_names and left not in root_names)
-    ctx.check(ok, "R02.4", u, tests[0].test if tests else "_largest",
-              "a new item replaces the current worst only if it is strictly better (ties keep the earlier item)",
-              witness=f"heap-root key names: {sorted(root_names)}")
+    loops = [n for n in cfg.nodes if n.kind == "pull" and not n.tag and isinstance(n.ast, ast.AsyncFor) and any(
+        isinstance(c, ast.Call) and norm(c.func).endswith("heapreplace") for b in n.ast.body for c in ast.walk(b))]
+    ctx.check(len(loops) == 1 and bool(root_names), "R02.4", u, "_largest",
+              "the replacement loop and the name holding the heap root's key were found", witness=str(sorted(root_names)))
+    for loop in loops[:1]:
+        for outcome in ("LT", "EQ", "GT"):
+            ctx.count("replace_cells")
+            ops = _ReplaceOps(outcome)
+            env = {nm: ("key", "OLD") for nm in root_names}
+            results = Machine(cfg, ops, resolver=make_resolver(ctx, u, ops)).run(
+                env, start=loop, stop=lambda n, loop=loop: n is loop)
+            results = [oc for oc in results if len(oc.path) > 1 and oc.path[1] not in [s for (lab, s) in loop.succ if lab == "stop"]]
+            want = outcome == "GT"
+            got = {bool(oc.env.get("@replaced")) for oc in results}
+            ctx.check(got == {want}, "R02.4", u, loop,
+                      f"[new key {outcome} heap-root key] -> {'replace the root' if want else 'keep the heap'}: a new item "
+                      "replaces the current worst only if it is strictly better (ties keep the earlier item)",
+                      node=loop, witness=f"evaluated: replaced={sorted(got)}")
     # directions of the two public functions
     for name, want in (("heapq.nlargest", "False"), ("heapq.nsmallest", "True")):
         pu = ctx.unit(name)
@@ -498,7 +523,7 @@ def _projection_index(ctx, u, cfg, call, key, depth=0):
 def r02_6(ctx) -> None:
     table = {"functools.reduce": "TypeError", "builtins._min_max": "ValueError"}
     for short, cls in table.items():
-        u = ctx.unit(short)
+        u = ctx.inlined(ctx.unit(short))  # the raise may sit in a private helper
         raises = [n for n in own_nodes(u.node) if isinstance(n, ast.Raise) and n.exc is not None]
         names = [raised_class(ctx, u, r) for r in raises]
         ctx.check(names == [cls], "R02.6", u, raises[0] if raises else short,
